@@ -2,6 +2,7 @@
 # one-time build after a fresh restore (offline): Lean project + driver, Go build cache warm-up
 set -e
 cd "$(dirname "$0")"
-(cd lean && lake build Emitter driver Audit 2>&1 | tail -5)
+MODS=$(cd lean && ls Emitter/Props/*.lean | sed 's/\.lean$//; s#/#.#g')
+(cd lean && lake build driver $MODS 2>&1 | tail -3)
 (cd /repo && GOFLAGS=-mod=mod GOPROXY=off go build ./... 2>&1 | tail -5) || true
 python3 bin/warm.py || true
